@@ -77,9 +77,22 @@ def check_selection(ctx):
     ctx.floor("R15.1", "selection pairs", n, 2)
 
 
-def _inline(loop, expr):
-    """inline single-assignment locals of the loop body into expr"""
+def loop_vars(loop):
+    names = set()
+    if isinstance(loop, (ast.For, ast.comprehension)):
+        for n in ast.walk(loop.target):
+            if isinstance(n, ast.Name):
+                names.add(n.id)
+    return names
+
+
+def _inline(loop, expr, stop=None):
+    """inline single-assignment locals of the loop body into expr (loop variables stay)"""
     import copy
+    stop = set(stop) if stop is not None else loop_vars(loop)
+    for n in ast.walk(loop):
+        if isinstance(n, ast.For) and n is not loop:
+            stop |= loop_vars(n)
     defs = {}
     for n in ast.walk(loop):
         if isinstance(n, ast.Assign) and len(n.targets) == 1 and isinstance(n.targets[0], ast.Name):
@@ -87,7 +100,7 @@ def _inline(loop, expr):
 
     class R(ast.NodeTransformer):
         def visit_Name(self, node):
-            if isinstance(node.ctx, ast.Load) and len(defs.get(node.id, [])) == 1 and node.id not in ("row", "index"):
+            if isinstance(node.ctx, ast.Load) and len(defs.get(node.id, [])) == 1 and node.id not in stop:
                 return R().visit(copy.deepcopy(defs[node.id][0]))
             return node
     return R().visit(copy.deepcopy(expr))
